@@ -279,3 +279,7 @@ CHECK_DEADLOCK FALSE
                          "offset 0 / mid / end; plus random keys of sampled (quick) or every (thorough) length 2..256 from the cross-checked harness builder; "
                          "reported data judged by TLC (checksum relation, unmask algebra, completeness); distinct = scenario x container x position")
     ctx.exhaustive = not q
+    # history freedom of the functions of their input behind this property (Pure.tla)
+    from vt.checks import xpure
+
+    xpure.pure_part(ctx, xpure.entries_for("C17"))
